@@ -1203,6 +1203,11 @@ func parseRaces(stderr string) map[uint64][]check.Violation {
 		}
 		a, ha := accessSite(sec(locs[0][0], locs[1][0]))
 		b, hb := accessSite(sec(locs[1][0], len(block)))
+		if strings.HasSuffix(a, "(called by harness client)") && strings.HasSuffix(b, "(called by harness client)") {
+			// both accesses are library code working for the harness's own tasks, no fan2go frame in between:
+			// the racing state is the harness's
+			ha = true
+		}
 		if ha || hb {
 			harnessRacesMu.Lock()
 			harnessRaces[seed]++
